@@ -92,6 +92,30 @@ def discharge_one(an, ob):
     if st is None or st.dead:
         return Outcome(ob, True, "UNREACH", "block is unreachable under the abstract state")
     t = ob.term
+    if ob.kind == "OVF" and ob.sub.endswith("-call"):
+        from .summaries import op_trait_operands
+        st2 = st.copy()
+        args = [an.eval_op(st2, a, "q%d" % i) for i, a in enumerate(t["args"])]
+        ot = op_trait_operands(an, st2, t, args, "q")
+        if ot is None:
+            return Outcome(ob, False, None, "operator call not understood")
+        opn, ity, a, b = ot
+        if opn in ("Shl", "Shr"):
+            ib = st2.itv(b)
+            bits = {"u8": 8, "i8": 8, "u16": 16, "i16": 16, "u32": 32, "i32": 32}.get(ity, 64)
+            if 0 <= ib[0] and ib[1] < bits:
+                return Outcome(ob, True, "INT", "shift amount < bit width")
+            return Outcome(ob, False, None, "shift amount in [%s,%s]" % ib)
+        if opn in ("Div", "Rem"):
+            ib = st2.itv(b)
+            if ib[0] > 0 or ib[1] < 0:
+                return Outcome(ob, True, "INT", "divisor non-zero")
+            return Outcome(ob, False, None, "divisor in [%s,%s]" % ib)
+        res = an.arith(st2, opn, a, b, ity, "qop")
+        it = st2.itv(V(const=res.const, sym=res.sym, lazy=res.lazy)) if res is not None else (-INF, INF)
+        if fits(it, ity):
+            return Outcome(ob, True, "INT", "result in [%s, %s] fits %s" % (it[0], it[1], ity))
+        return Outcome(ob, False, None, "result in [%s, %s] does not provably fit %s" % (it[0], it[1], ity))
     if ob.kind in ("OVF", "DIV0", "BOUNDS", "ASSERT"):
         c = an.eval_op(st, t["cond"], "q")
         exp = 1 if t["expected"] else 0
